@@ -48,7 +48,11 @@ def gen_cases(tier, seed):
         pool = [0, 1, 2] if not eps else [0, 0.5, 1, 2, 2.5, 4, 10]
         if not eps and rng.random() < 0.3:  # components that print alike but are not equal
             pool = [1e-6, 4e-6, 2e-6, 0.5, 0.500001]
+        if rng.random() < 0.15:  # infinite penalties are ordinary floats (also under epsilon: the band must stay a number)
+            pool = pool + [float("inf"), float("inf"), float("-inf")]
         c = {"kind": "lexicase", "values": [[rng.choice(pool) for _ in range(m)] for _ in range(n)], "minimize": [rng.random() < 0.5 for _ in range(m)], "epsilon": eps, "target": rng.randint(1, n), "seed": rng.randrange(10**6)}
+        if rng.random() < 0.1:
+            c["target"] = n + rng.randint(1, 3)  # asked for more than there is: no individual may come out twice
         yield with_copies(rng, c) if rng.random() < 0.3 else c
     for _ in range(plan["exhaustive"]):
         n = rng.randint(2, 4)
@@ -246,7 +250,13 @@ def run_lexicase(case, rec, src):
                 rec.violation("lexicase:more-copies-than-the-population-contains", dict(wit, winners=winners))
                 continue
             winners.append(idx)
-            ok = survives(case["values"], case["minimize"], avail, idx, case["epsilon"], True) or (case["epsilon"] and survives(case["values"], case["minimize"], avail, idx, True, False))
+            if case["epsilon"] and any(v in (float("inf"), float("-inf")) for i in avail for v in case["values"][i]):
+                # with infinite case values the width of the band (a median of |x - median|) may be inf - inf: the band is
+                # not pinned there, so survival is not judged (membership, copies and "no exception" still are)
+                rec.count("epsilon_winners_among_infinite_values")
+                ok = True
+            else:
+                ok = survives(case["values"], case["minimize"], avail, idx, case["epsilon"], True) or (case["epsilon"] and survives(case["values"], case["minimize"], avail, idx, True, False))
             if not ok:
                 rec.violation(f"lexicase:winner-survives-no-case-order:{'first' if nth == 0 else 'later'}:{'epsilon' if case['epsilon'] else 'plain'}", dict(wit, winner=case["values"][idx], nth=nth, available=[case["values"][i] for i in avail]))
             avail.remove(idx)
@@ -255,9 +265,14 @@ def run_lexicase(case, rec, src):
     except sources.NotFiniteChoice:
         raise
     except BaseException as e:  # noqa
+        if case["target"] > len(inds) and len(winners) >= len(inds):
+            rec.count("lexicase_over_requests_refused_after_the_whole_population")  # nothing left to give: an error is an answer
+            return
         rec.violation(f"lexicase:raises:{type(e).__name__}@{core.exc_site(e)}", dict(wit, error=core.short(e)))
         return
-    if len(winners) != case["target"]:
+    if case["target"] > len(inds):
+        rec.count("lexicase_over_requests")
+    if len(winners) != case["target"] and case["target"] <= len(inds):
         rec.violation("lexicase:count", dict(wit, yielded=len(winners)))
     rec.distinct_add([case["values"], case["minimize"], case["epsilon"], winners])
     if not case.get("exhaustive"):
